@@ -1,7 +1,25 @@
-(* C14 — API requests concurrent with polling behave as if executed one at a time. *)
+(* C14 — API requests concurrent with polling behave as if executed one at a time.
+   The pinned tree lost a newly created operation in some interleavings (theorems at the end of this
+   file, kept as the record of the defect); the repair runs both handlers under one node mutex. *)
 From Coq Require Import List NArith ZArith Bool Arith.
-Require Import Node.Serial Node.SerialProofs.
+Require Import Node.Serial Node.SerialProofs Node.SerialLock Node.SerialLockProofs.
+Require Gen.Skeletons.
 Import ListNotations.
+
+(* with the handler mutex (regenerated from the source: both handlers lock first, unlock on return):
+   for EVERY schedule of the two threads - of any length, with any number of attempts to move a
+   thread that is waiting for the lock - the two handlers are never inside their sections together,
+   and once both have finished the newly created operation is pending and the answered one is not *)
+Theorem C14_handlers_take_the_lock :
+  Gen.Skeletons.process_message_locked && Gen.Skeletons.execute_operation_locked = true.
+Proof. exact handlers_locked_ok. Qed.
+Theorem C14_locked_handlers_serialisable :
+  forall sched, let s := lkrun sched in
+  ~ (l_apc s = 1 /\ l_bpc s = 1) /\ (l_apc s = 2 -> l_bpc s = 2 -> pending_of s = [2]).
+Proof. exact locked_handlers_serialisable. Qed.
+Print Assumptions C14_locked_handlers_serialisable.
+
+(* ---- without the mutex (the pinned tree; defect repaired by the commit recorded in known_findings) ---- *)
 
 (* finite, complete enumeration (bound stated): one operation result (7 store calls) against one
    PutOperation of the poller (3 store calls) - all 120 interleavings.  The outcome equals both
